@@ -873,7 +873,7 @@ fn apply(rep: &Reporter, st: &Stats, samples: &Smp, p: &Prepared, s: &Site, hand
 }
 
 fn note_build_problems(rep: &Reporter, st: &Stats, p: &Prepared, allow_reject: bool) {
-  let mut note = |what: &str, tpl: &str, e: &str| {
+  let note = |what: &str, tpl: &str, e: &str| {
     if e == "not requested" {
       return;
     }
@@ -995,7 +995,7 @@ fn check_pattern_fix(rep: &Reporter, st: &Stats, samples: &Smp, lang_name: &str,
     let got = guarded(std::panic::AssertUnwindSafe(|| Replacer::<D>::generate_replacement(&tf, nm)));
     let conforms = compare(rep, st, "cut:TemplateFix", got.clone(), &exp, &c);
     // the no-op law, independent of the reference's formula
-    let is_own_text = deindent(pat_text, m2).as_deref() == Some(fix) && subst_verbatim(&pat_pieces, &env) == src[r.clone()];
+    let is_own_text = deindent(pat_text, m2).as_deref() == Some(fix) && subst_verbatim(&pat_pieces, &env) == src[r.clone()] && !src[r.clone()].starts_with(' ');
     if is_own_text && exp.verdict != Verdict::Skip && !exp.side_violation {
       add(&st.rt_cut_noop_judged);
       if src[r.clone()].contains('\n') {
